@@ -462,8 +462,8 @@ func call(i *interpreter, caller *frame, callpos token.Pos, fn value, args []val
 }
 
 func callSSA(i *interpreter, caller *frame, callpos token.Pos, fn *ssa.Function, args []value, env []value) value {
-	if repl := i.run.overrideFns[fn]; repl != nil {
-		fn = repl
+	if repl := i.run.overrideFns[fn]; repl != nil && (caller == nil || caller.fn != repl) {
+		fn = repl // calls made directly by the replacement reach the original
 	}
 	fr := &frame{i: i, caller: caller, fn: fn}
 	if caller != nil {
@@ -526,6 +526,9 @@ func runFrame(fr *frame) {
 		}
 		fr.panicking = true
 		fr.panic = r
+		if fr.i.panicSite == "" && fr.fn != nil {
+			fr.i.panicSite = fr.fn.String() // innermost interpreted function that saw the panic
+		}
 		fr.runDefers()
 		fr.block = fr.fn.Recover
 		if fr.block == nil {
